@@ -362,10 +362,27 @@ def check(ctx):
                     for n in d.body.walk():
                         if n.op == 'construct' and ('vegas_result' in (n.a.get('type') or '') or
                                                     'multi_channel_result' in (n.a.get('type') or '')) and len(n.k) == 3:
-                            if not n.a.get('listinit'):
+                            def strip(a_):
+                                while a_ is not None and a_.op in ('cast', 'materialize', 'bindtemp', 'paren') and a_.k:
+                                    a_ = a_.k[0]
+                                return a_
+                            copies = [a_ for a_ in n.k if strip(a_) is not None and strip(a_).op == 'construct'
+                                      and strip(a_).a.get('copy') and 'vector' in (strip(a_).a.get('type') or '')]
+                            calls_reduce = any(x.op == 'call' and 'allreduce_result' in (x.a.get('name') or '')
+                                               for a_ in n.k for x in a_.walk())
+                            if n.a.get('listinit'):
+                                ctx.holds('R6.evaluation_order', '%s:%s' % (n.where(), base), 'braced initialiser: the '
+                                          'arguments are evaluated left to right, `buffer` is read after the reduction')
+                            elif copies and calls_reduce:
+                                ctx.violation('R6.evaluation_order', '%s:%s' % (n.where(), base), 'the result is built '
+                                              'with a parenthesised initialiser and takes the reduced buffer BY VALUE: '
+                                              'the copy is an argument evaluation that is unsequenced relative to the '
+                                              'allreduce_result call which fills the buffer; compilers that evaluate '
+                                              'arguments right to left (GCC) store the buffer of the previous iteration')
+                            elif calls_reduce:
                                 ctx.warn('R6.evaluation_order', '%s:%s' % (n.where(), base), 'result is built with a '
                                          'parenthesised initialiser: the read of `buffer` is unsequenced relative to '
-                                         'allreduce_result (may, not must, break)')
+                                         'allreduce_result (harmless while the parameter is a reference)')
             ctx.guard('R1', fsite(d), rdrv)
     ctx.count('MPI drivers', nd, 6)
     # ---------------------------------------------------------------- R8 one communicator
